@@ -17,6 +17,7 @@ FIELDS = ("rebroadcast_hash", "total_rebroadcast_slips")
 def run(prog, tier, extra=None):
     res = Result("C13", "other")
     R1 = res.rule("C13.compare", "accept paths of Block::validate pass cv.F == self.F for the rebroadcast commitment", floor=2)
+    R3 = res.rule("C13.longest-chain-lookup", "consensus values look blocks up by height only through the longest-chain index", floor=1)
     R2 = res.rule("C13.derive", "Block::generate writes the rebroadcast commitment only under the ATR arm, for every ATR transaction", floor=3)
     bv = BlockValidate(prog)
     b, ch = bv.body, bv.ch
@@ -83,6 +84,34 @@ def run(prog, tier, extra=None):
                                 "covered by the rebroadcast commitment that Block::validate compares", g.loc(skipped[0])))
             else:
                 res.sample({"rule": R2, "field": f, "verdict": "every ATR-typed transaction is folded into the hash"})
+    # R3: the block whose outputs are rebroadcast is the longest-chain block at the expiring height: inside the consensus value
+    # computation every lookup of a block by height goes through the longest-chain index, never through "any block at this id"
+    from ..callgraph import CallGraph
+    from ..expr import call_name
+    cg = CallGraph(prog, [u for u in prog.units if u.crate == "saito_core"])
+    GCV = CORE + "consensus::block::Block::generate_consensus_values::{closure#0}"
+    if GCV not in cg.bodies:
+        raise LookupError("generate_consensus_values not found")
+    live = cg.reachable_from([GCV], kinds=("call", "await", "creates"))
+    ANY = CORE + "consensus::blockring::BlockRing::get_block_hash_by_block_id"
+    LC = CORE + "consensus::blockring::BlockRing::get_longest_chain_block_hash_at_block_id"
+    n_lc = 0
+    for p in sorted(live):
+        body = cg.bodies[p]
+        for bb, t in body.calls():
+            n = call_name(t)
+            if n == LC:
+                n_lc += 1
+                res.instance(R3)
+            elif n == ANY:
+                res.instance(R3)
+                res.add(Finding(R3, "C13.longest-chain-lookup|%s" % p, "%s looks a block up by height with BlockRing::get_block_hash_by_block_id (any chain) while computing consensus values: "
+                                "after a fork the rebroadcast set is taken from a block that is not on the longest chain" % p.replace(CORE, "")[-60:], body.loc(bb)))
+    if n_lc == 0:
+        res.add(Finding(R3, "C13.longest-chain-lookup|none", "the consensus value computation no longer looks the expiring block up through the longest-chain index", cg.bodies[GCV].loc(0)))
+    else:
+        res.sample({"rule": R3, "longest_chain_lookups": n_lc, "bodies_in_scope": len(live), "verdict": "all by-height lookups use the longest-chain index"})
+
     res.explanation = (
         "Decides that the rebroadcast set is committed and compared: the validator's recomputed rebroadcast hash and rebroadcast-slip count must equal the header's on "
         "every accepting path (consensus mode), and the header values are accumulated in Block::generate only from ATR-typed transactions. Necessary for "
